@@ -1,9 +1,13 @@
 import SaphyrModel.Sc.Scan3
+import SaphyrModel.Proofs.SingleQuoted
 /-! # C04 — Plain and quoted scalar text (function-level theorems)
 
 The escape table of the double-quoted scanner against the table of YAML 1.2.2 §5.7, for every
-character; the value of hexadecimal escapes. The folding rules are not covered by theorems here:
-for them the check relies on correspondence + the presentation oracle. -/
+character; the value of hexadecimal escapes. **Single-quoted scalars on one line** are covered in full
+(`single_quoted_scalar_token`): for every value without line breaks the scanner returns exactly the value — `''`
+as one quote, interior blanks kept, every other character unchanged. Double-quoted scalars as the emitter writes
+them: `C09.quoted_string_rescans`. The folding rules of flow scalars (multi-line) are not covered by theorems
+here: for them the check relies on correspondence + the presentation oracle. -/
 namespace SaphyrModel.C04
 open SaphyrModel SaphyrModel.Sc
 
@@ -41,5 +45,43 @@ theorem asHex_digits :
     ("0123456789".toList.map asHex = List.range 10) ∧
     ("abcdef".toList.map asHex = [10, 11, 12, 13, 14, 15]) ∧
     ("ABCDEF".toList.map asHex = [10, 11, 12, 13, 14, 15]) := by decide
+
+open SaphyrModel.C04S SaphyrModel.C05T in
+/-- **Single-quoted scalars: `''` is one quote, blanks are kept, everything else is passed through — for every
+    one-line value.** The scanner (string input) stands at the opening quote of a single-quoted scalar whose
+    content is an arbitrary value `v` without line breaks or NUL — any characters, including indicator characters,
+    `"`, `\`, `#`, tabs and spaces anywhere, non-ASCII text — written with each of its quotes doubled, followed by
+    the closing quote and the end of the line (or of the input). Provided the scalar is not less indented than
+    its parent, the scanner either runs out of the fuel it was given or returns a single-quoted scalar token whose
+    text is exactly `v`, whose span starts at the opening quote and ends right after the closing quote, `2`
+    characters plus the written length of `v` further on the same line. -/
+theorem single_quoted_scalar_token (v rest : Str) (hv : ∀ c ∈ v, isBreak c = false ∧ isZ c = false)
+    (hz : isBreakz (rest.headD '\x00') = true) (u : Sc) (hk : u.inp.kind = .str)
+    (hI : u.indent ≤ (u.mark.col : Int) + 1)
+    (hi : u.inp.iter = '\'' :: (sqEnc v ++ '\'' :: rest)) :
+    (∃ p, scanFlowScalar true u = .panic p) ∨
+    ∃ tok u', scanFlowScalar true u = .ok (tok, u') ∧
+      tok.ty = .scalar .singleQuoted v ∧ tok.span.start = u.mark ∧ tok.span.stop = u'.mark ∧
+      u'.inp.iter = rest ∧ u'.mark.line = u.mark.line ∧ u'.mark.col = u.mark.col + 1 + (sqEnc v).length + 1 ∧
+      u'.mark.index = u.mark.index + 1 + (sqEnc v).length + 1 := by
+  rcases single_quoted_token v rest hv hz u u.mark.line u.mark.col u.indent (u.mark.index + u.inp.iter.length) hI
+      ⟨hk, hi, rfl, rfl, rfl, by rw [hi]⟩ with h | ⟨tok, u', hok, h1, h2, h3, h4⟩
+  · exact Or.inl h
+  · refine Or.inr ⟨tok, u', hok, h1, h2, h3, h4.iter, h4.line, h4.col, ?_⟩
+    have := h4.off
+    rw [hi] at this
+    simp only [List.length_cons, List.length_append] at this
+    omega
+
+/-- the decoding read backwards: the written form of a value is the value with each quote doubled -/
+example : C04S.sqEnc ['i','t','\'','s',' ',' ','"','a','"','\t',':'] = ['i','t','\'','\'','s',' ',' ','"','a','"','\t',':'] := by decide
+
+/-- non-vacuity: `'it''s  "a"	:'` at column 3, parent indentation 2 -/
+example :
+    (match scanFlowScalar true
+        { mkSc .str 0 ['\'','i','t','\'','\'','s',' ',' ','"','a','"','\t',':','\'','\n','x'] with indent := 2, mark := ⟨3, 1, 3⟩ } with
+     | .ok (tok, u') => decide (tok.ty = .scalar .singleQuoted ['i','t','\'','s',' ',' ','"','a','"','\t',':']) &&
+         tok.span.start.col == 3 && tok.span.stop.col == 17 && decide (u'.inp.iter = ['\n','x'])
+     | _ => false) = true := by decide +kernel
 
 end SaphyrModel.C04
